@@ -6,9 +6,14 @@
         -> <result F(d[i:j])> | <i'> <j'> | <result F(d)[i':j']>      (err <class> if d or an image raises)
            with i' = sum(len(F(b).boxes) for b in d.boxes[:I]), I, J = slice(i, j).indices(len(d))[:2]
     functorsum <functor> <sexpr>                                 -> ok <dom> <cod> <n> <diagram>* | err <class>
+    functorimg <nob> (<name> <ty>)* <nar> (<box> <img>)* <expr d>
+        -> ok D <diagram> | ok S <dom> <cod> <n> <diagram>* | err <class>     (FunctorS.applyS)
+        <img> ::= D <expr> | S <n> <expr>* <ty dom> <ty cod>     (a plain diagram | Sum(terms, dom, cod))
+    functorimgop then|tensor <functorimg functor> <expr a> <expr b>
+        -> the same format, for F(a) >> F(b) / F(a) @ F(b) computed with DS.then / DS.tensor
 -/
 import Driver.ReprCmd
-import Model.FunctorSum
+import Model.FunctorSumImg
 
 namespace DV.FunctorCmd
 open DV DV.Codec
@@ -38,8 +43,70 @@ def sliceAnswer (F : Functor) (d : Diagram) (i j : Option Int) : String :=
     | .ok fd => fd.slice (some (i' : Int)) (some (j' : Int))
   s!"{pResult lhs} | {i'} {j'} | {pResult rhs}"
 
+inductive ImgE where
+  | plain (e : Expr)
+  | sum (ts : List Expr) (dom cod : Ty)
+
+def imgP : P ImgE := do
+  let t ← tok
+  if t == "D" then do pure (.plain (← expr))
+  else if t == "S" then do
+    let ts ← many expr; let d ← ty; let c ← ty; pure (.sum ts d c)
+  else throw s!"bad img head {t}"
+
+def arImgEntry : P (Box × ImgE) := do let b ← box; let i ← imgP; pure (b, i)
+
+def evalImg : ImgE → Except Err DS
+  | .plain e => DS.ofDiag e.eval
+  | .sum ts d c =>
+    match evalAll ts with
+    | .error e => .error e
+    | .ok ds => DS.ofSum (Sum.mk? ds (some d) (some c))
+
+def evalImgs : List (Box × ImgE) → Except Err (List (Box × DS))
+  | [] => .ok []
+  | (b, i) :: rest => match evalImg i with
+    | .error x => .error x
+    | .ok d => match evalImgs rest with
+      | .error x => .error x
+      | .ok ds => .ok ((b, d) :: ds)
+
+def pDS (r : Except Err DS) : String :=
+  match r with
+  | .ok (.diag d) => "ok D " ++ pDiagram d
+  | .ok (.sum s) => "ok S " ++ ReprCmd.pSum s
+  | .error e => "err " ++ toString e
+
+def functorImgP : P (List (String × Ty) × List (Box × ImgE)) := do
+  let ob ← many obEntry; let ar ← many arImgEntry; pure (ob, ar)
+
+def imgOp (op : String) (F : FunctorS) (a b : Diagram) : Except Err DS :=
+  match F.applyS a with
+  | .error e => .error e
+  | .ok fa => match F.applyS b with
+    | .error e => .error e
+    | .ok fb => if op == "then" then fa.then fb else fa.tensor fb
+
 def handle (cmd : String) (rest : List String) : Option String :=
   match cmd with
+  | "functorimg" =>
+    some <| match ((do let f ← functorImgP; let d ← expr; pure (f, d)) : P _).run rest with
+      | .error m => "bad " ++ m
+      | .ok (((ob, ar), d), _) =>
+        match evalImgs ar, d.eval with
+        | .ok imgs, .ok d0 => pDS ((⟨ob, imgs⟩ : FunctorS).applyS d0)
+        | .error e, _ => "err " ++ toString e
+        | _, .error e => "err " ++ toString e
+  | "functorimgop" =>
+    some <| match ((do let op ← tok; let f ← functorImgP; let a ← expr; let b ← expr;
+                       pure (op, f, a, b)) : P _).run rest with
+      | .error m => "bad " ++ m
+      | .ok ((op, (ob, ar), a, b), _) =>
+        match evalImgs ar, a.eval, b.eval with
+        | .ok imgs, .ok a0, .ok b0 => pDS (imgOp op ⟨ob, imgs⟩ a0 b0)
+        | .error e, _, _ => "err " ++ toString e
+        | _, .error e, _ => "err " ++ toString e
+        | _, _, .error e => "err " ++ toString e
   | "functorslice" =>
     some <| match ((do let f ← functorP; let d ← expr; let i ← optInt; let j ← optInt;
                        pure (f, d, i, j)) : P _).run rest with
